@@ -1457,6 +1457,177 @@ example :
     (sliceAxesKeep xs [2, 0] [1, 1]).shape = [1, 3, 1] ∧ (sliceAxesKeep xs [2, 0] [1, 1]).toFlat = [7, 9, 11] ∧
     (sliceAxes xs [2, 0] [1, 1]).shape = [3] ∧ (sliceAxes xs [2, 0] [1, 1]).toFlat = [7, 9, 11] := by decide
 
+/-! ### negative axis entries (NumPy semantics `-k ≡ rank-k`)
+
+`scan_in_dim` hands `axis` on as it is; `np.delete`, `transpose` and the negative list indexing in
+`_invert_perm` each normalise on their own.  `scanInDimI` transcribes that; the theorems below say
+that it is the `Nat` model on the normalised axes, so that every theorem above applies verbatim
+with `axis.map (normAxis rank)`. -/
+
+/-- **`_invert_perm` with negative entries**: writing `perm_inv[j] = i` with Python's negative
+indexing is `_invert_perm` of the normalised permutation — hence (by `invert_perm_inverse`) the true
+inverse whenever the normalised entries form a permutation. -/
+theorem invert_perm_negative_entries (perm : List Int) :
+    invertPermI perm = invertPerm (perm.map (normAxis perm.length)) ∧
+    (IsPerm (perm.map (normAxis perm.length)) →
+      ∀ k (hk : k < perm.length), (invertPermI perm)[normAxis perm.length perm[k]]? = some k) := by
+  refine ⟨invertPermI_eq perm, ?_⟩
+  intro hp k hk
+  rw [invertPermI_eq]
+  have := invertPerm_left _ hp k (by simpa using hk)
+  simpa using this
+
+/-- the permutation `axis + delete(arange(ndim), axis)` with negative axes, normalised, is the
+permutation of the normalised axes; its `_invert_perm` is the inverse of that permutation -/
+theorem scan_perm_negative_axes (axis : List Int) (ndim : Nat) :
+    (scanPermI axis ndim).map (normAxis ndim) = scanPerm (axis.map (normAxis ndim)) ndim ∧
+    (ValidAxes (axis.map (normAxis ndim)) ndim →
+      invertPermI (scanPermI axis ndim) = invertPerm (scanPerm (axis.map (normAxis ndim)) ndim)) := by
+  refine ⟨scanPermI_norm axis ndim, ?_⟩
+  intro h
+  rw [invertPermI_eq, scanPermI_length, scanPerm_length _ _ h, scanPermI_norm]
+
+private theorem transposeInI_eq' (axis : List Int) (x : Arr α) (n : Nat) (hn : x.shape.length = n) :
+    transposeInI axis x = transposeIn (axis.map (normAxis n)) x := by
+  subst hn; exact transposeInI_eq axis x
+
+private theorem transposeOutI_eq' (axis : List Int) (x : Arr α) (n : Nat) (hn : x.shape.length = n)
+    (h : ValidAxes (axis.map (normAxis n)) n) :
+    transposeOutI axis x = transposeOut (axis.map (normAxis n)) x := by
+  subst hn; exact transposeOutI_eq axis x h
+
+private theorem transposeOut_rank (axis : List Nat) (x : Arr α) (h : ValidAxes axis x.shape.length) :
+    (transposeOut axis x).shape.length = x.shape.length := by
+  show (gather (invertPerm (scanPerm axis x.shape.length)) x.shape).length = _
+  rw [gather_length, invertPerm_length _ (scanPerm_isPerm axis _ h), scanPerm_length axis _ h]
+
+private theorem sliceAt_transposeIn (xs : Arr α) (axis m : List Nat) (hm : m.length = axis.length) :
+    (transposeIn axis xs).sliceAt m = sliceAxes xs axis m := by
+  have hshape : (transposeIn axis xs).shape = gather axis xs.shape ++ gather (restAxes axis xs.shape.length) xs.shape := by
+    rw [transposeIn_shape, scanPerm_eq, gather_append]
+  simp only [Arr.sliceAt, sliceAxes, hshape]
+  congr 1
+  rw [List.drop_left' (by rw [gather_length]; exact hm.symm)]
+
+private theorem scanInDim_false_unfold (body : γ → Arr α → γ × Arr β) (init : γ) (xs : Arr α)
+    (axis : List Nat) (k : Nat) (hk : axis.length = k + 1) :
+    scanInDim body init xs axis false
+      = ((scanNd body k init (transposeIn axis xs)).1, transposeOut axis (scanNd body k init (transposeIn axis xs)).2) := by
+  simp only [scanInDim, hk, Nat.add_sub_cancel]
+  rfl
+
+private theorem scanInDimI_false_unfold (body : γ → Arr α → γ × Arr β) (init : γ) (xs : Arr α)
+    (axis : List Int) (k : Nat) (hk : axis.length = k + 1) :
+    scanInDimI body init xs axis false
+      = ((scanNd body k init (transposeInI axis xs)).1, transposeOutI axis (scanNd body k init (transposeInI axis xs)).2) := by
+  simp only [scanInDimI, hk, Nat.add_sub_cancel]
+  rfl
+
+/-- **scan_in_dim with negative / mixed axis entries, `keepdims=False`**: the code as it is equals
+the model on the normalised axes (so `scan_in_dim_eq_nested_loop` applies: it is the nested loop
+over the axes `rank + a` for `a < 0`), whenever the normalised axes are distinct axes of `xs` and
+the result has the rank of `xs` (a negative entry is relative to the array a transpose is applied
+to, and `transpose_out` is applied to the result). -/
+theorem scan_in_dim_negative_axes (body : γ → Arr α → γ × Arr β) (init : γ) (xs : Arr α)
+    (axis : List Int) (hne : axis ≠ [])
+    (hv : ValidAxes (axis.map (normAxis xs.shape.length)) xs.shape.length)
+    (hrank : axis.length + (body init (sliceAxes xs (axis.map (normAxis xs.shape.length))
+        (List.replicate axis.length 0))).2.shape.length = xs.shape.length) :
+    scanInDimI body init xs axis false
+      = scanInDim body init xs (axis.map (normAxis xs.shape.length)) false := by
+  obtain ⟨k, hk⟩ : ∃ k, axis.length = k + 1 := by
+    cases axis with
+    | nil => exact absurd rfl hne
+    | cons a t => exact ⟨t.length, rfl⟩
+  have hkN : (axis.map (normAxis xs.shape.length)).length = k + 1 := by simpa using hk
+  have hkn := axis_length_le _ _ hv
+  rw [scanInDimI_false_unfold body init xs axis k hk, scanInDim_false_unfold body init xs _ k hkN,
+    transposeInI_eq]
+  have hres : (scanNd body k init (transposeIn (axis.map (normAxis xs.shape.length)) xs)).2.shape.length
+      = xs.shape.length := by
+    rw [scanNd_result_rank body k init _ (by rw [transposeIn_rank _ xs hv]; omega),
+      sliceAt_transposeIn xs _ _ (by simp [hk]), ← hk]
+    have : List.replicate axis.length 0 = List.replicate (axis.length) 0 := rfl
+    exact hrank
+  rw [transposeOutI_eq' axis _ xs.shape.length hres hv]
+
+/-- **… and `keepdims=True`**, for bodies that keep the rank (as `keepdims` requires). -/
+theorem scan_in_dim_negative_axes_keepdims (body : γ → Arr α → γ × Arr β) (init : γ) (xs : Arr α)
+    (axis : List Int) (hne : axis ≠ [])
+    (hv : ValidAxes (axis.map (normAxis xs.shape.length)) xs.shape.length)
+    (hbody : ∀ c s, s.shape.length = xs.shape.length → (body c s).2.shape.length = xs.shape.length) :
+    scanInDimI body init xs axis true
+      = scanInDim body init xs (axis.map (normAxis xs.shape.length)) true := by
+  obtain ⟨k, hk⟩ : ∃ k, axis.length = k + 1 := by
+    cases axis with
+    | nil => exact absurd rfl hne
+    | cons a t => exact ⟨t.length, rfl⟩
+  have hkN : (axis.map (normAxis xs.shape.length)).length = k + 1 := by simpa using hk
+  have hkn := axis_length_le _ _ hv
+  have hpl := scanPerm_length _ _ hv
+  -- both sides as `keepdims=False` scans of their body wrappers
+  have hL : scanInDimI body init xs axis true
+      = scanInDimI (fun c s => ((body c (transposeOutI axis (s.addLeadingOnes axis.length))).1,
+          (transposeInI axis (body c (transposeOutI axis (s.addLeadingOnes axis.length))).2).dropLeading axis.length))
+          init xs axis false := rfl
+  have hR : scanInDim body init xs (axis.map (normAxis xs.shape.length)) true
+      = scanInDim (fun c s => ((body c (transposeOut (axis.map (normAxis xs.shape.length))
+            (s.addLeadingOnes (axis.map (normAxis xs.shape.length)).length))).1,
+          (transposeIn (axis.map (normAxis xs.shape.length)) (body c (transposeOut (axis.map (normAxis xs.shape.length))
+            (s.addLeadingOnes (axis.map (normAxis xs.shape.length)).length))).2).dropLeading
+              (axis.map (normAxis xs.shape.length)).length))
+          init xs (axis.map (normAxis xs.shape.length)) false := rfl
+  rw [hL, hR, scanInDimI_false_unfold _ init xs axis k hk, scanInDim_false_unfold _ init xs _ k hkN, transposeInI_eq]
+  simp only [List.length_map]
+  -- the two wrappers agree on every slice that is visited
+  have hwrap : ∀ (c : γ) (s : Arr α),
+      s.shape.length + (k + 1) = (transposeIn (axis.map (normAxis xs.shape.length)) xs).shape.length →
+      ((body c (transposeOutI axis (s.addLeadingOnes axis.length))).1,
+        (transposeInI axis (body c (transposeOutI axis (s.addLeadingOnes axis.length))).2).dropLeading axis.length)
+      = ((body c (transposeOut (axis.map (normAxis xs.shape.length)) (s.addLeadingOnes axis.length))).1,
+        (transposeIn (axis.map (normAxis xs.shape.length)) (body c (transposeOut (axis.map (normAxis xs.shape.length))
+          (s.addLeadingOnes axis.length))).2).dropLeading axis.length) := by
+    intro c s hs
+    rw [transposeIn_rank _ xs hv] at hs
+    have hr1 : (s.addLeadingOnes axis.length).shape.length = xs.shape.length := by
+      simp only [Arr.addLeadingOnes, List.length_append, List.length_replicate]; omega
+    rw [transposeOutI_eq' axis _ xs.shape.length hr1 hv]
+    have hr2 : (transposeOut (axis.map (normAxis xs.shape.length)) (s.addLeadingOnes axis.length)).shape.length
+        = xs.shape.length := by
+      rw [transposeOut_rank _ _ (by rw [hr1]; exact hv), hr1]
+    rw [transposeInI_eq' axis _ xs.shape.length (hbody c _ hr2)]
+  have hsc := scanNd_congr _ _ k init (transposeIn (axis.map (normAxis xs.shape.length)) xs)
+    (by rw [transposeIn_rank _ xs hv]; omega) hwrap
+  rw [hsc]
+  -- rank of the stacked result
+  have hres : (scanNd (fun c s => ((body c (transposeOut (axis.map (normAxis xs.shape.length)) (s.addLeadingOnes axis.length))).1,
+        (transposeIn (axis.map (normAxis xs.shape.length)) (body c (transposeOut (axis.map (normAxis xs.shape.length))
+          (s.addLeadingOnes axis.length))).2).dropLeading axis.length)) k init
+        (transposeIn (axis.map (normAxis xs.shape.length)) xs)).2.shape.length = xs.shape.length := by
+    rw [scanNd_result_rank _ k init _ (by rw [transposeIn_rank _ xs hv]; omega)]
+    have hs0 : ((transposeIn (axis.map (normAxis xs.shape.length)) xs).sliceAt (List.replicate (k + 1) 0)).shape.length + (k + 1)
+        = xs.shape.length := by
+      simp only [Arr.sliceAt, List.length_drop, List.length_replicate, transposeIn_rank _ xs hv]; omega
+    have hr1 : (((transposeIn (axis.map (normAxis xs.shape.length)) xs).sliceAt (List.replicate (k + 1) 0)).addLeadingOnes
+        axis.length).shape.length = xs.shape.length := by
+      simp only [Arr.addLeadingOnes, List.length_append, List.length_replicate]; omega
+    have hr2 := transposeOut_rank (axis.map (normAxis xs.shape.length)) _ (by rw [hr1]; exact hv)
+    rw [hr1] at hr2
+    have hy := hbody init _ hr2
+    show (k + 1) + ((gather (scanPerm (axis.map (normAxis xs.shape.length)) _) _).drop axis.length).length = _
+    rw [List.length_drop, gather_length, hy, hpl]; omega
+  rw [transposeOutI_eq' axis _ xs.shape.length hres hv]
+
+-- non-vacuity: axis (-1, 0) of a rank-3 array is the valid axis tuple (2, 0)
+example : [(-1 : Int), 0].map (normAxis 3) = [2, 0] ∧ ValidAxes ([(-1 : Int), 0].map (normAxis 3)) 3 :=
+  ⟨by decide, ⟨by decide, by decide⟩⟩
+example : invertPermI [-1, 0, 1] = [1, 2, 0] ∧ scanPermI [-1, 0] 3 = [-1, 0, 1] := by decide
+example :
+    let xs : Arr Nat := Arr.ofFlat [2, 3, 2] #[0, 1, 2, 3, 4, 5, 6, 7, 8, 9, 10, 11]
+    let body : Nat → Arr Nat → Nat × Arr Nat := fun c x => (c * 3 + x.get [0] + 1, { shape := x.shape, get := fun i => x.get i + c })
+    let r := scanInDimI body 0 xs [-1, 0] false
+    (r.1, r.2.shape, r.2.toFlat) = (104, [2, 3, 2], [0, 11, 2, 13, 4, 15, 7, 39, 9, 41, 11, 43]) := by decide
+
 end Scan
 
 end Flax.C20
